@@ -28,6 +28,7 @@ def cval(F, name):
 
 
 def check(F, R, tier):
+    lib.cas_loops_fresh(R, F, r'^iceoryx2_bb_lock_free::mpmc::bit_set::details::BitSet', 2, 'a decision computed once before the loop is stale after the first failed CAS')
     IDLE, PENDING, NOTIFIED = cval(F, 'IDLE'), cval(F, 'PENDING'), cval(F, 'NOTIFIED')
     R.ob('CONST', 'CONST::NOTIFICATION_STATE::distinct', len({IDLE, PENDING, NOTIFIED}) == 3, 'IDLE=%s PENDING=%s NOTIFIED=%s' % (IDLE, PENDING, NOTIFIED), 'iceoryx2-cal/src/event/common.rs')
     n = F.fn(NOTIFY)
